@@ -73,6 +73,41 @@ def helper_hooks(funcs, consts=None):
     return hooks
 
 
+def payload_flow(rep, relpath, gen, callee='checksum'):
+    """The payload of a generator may only flow into checksum() (directly, through str() or a concatenation) or be rebound to its
+    own str(): a generator that looks at the payload itself (a test on its characters, a slice) gives a character that does not
+    follow from the residue the validator computes.  -> True when the rule holds."""
+    p = gen.args.args[0].arg
+    par = {}
+    for n in ast.walk(gen):
+        for c in ast.iter_child_nodes(n):
+            par[c] = n
+    ok = True
+    for n in ast.walk(gen):
+        if isinstance(n, ast.Name) and n.id == p and isinstance(n.ctx, ast.Load):
+            x, fine = n, False
+            while x in par:
+                q = par[x]
+                if isinstance(q, ast.Call) and src(q.func) == 'str' and q.args and q.args[0] is x:
+                    x = q
+                    if isinstance(par.get(q), ast.Assign) and len(par[q].targets) == 1 and src(par[q].targets[0]) == p:
+                        fine = True
+                        break
+                    continue
+                if isinstance(q, ast.BinOp) and isinstance(q.op, ast.Add):
+                    x = q
+                    continue
+                if isinstance(q, ast.Call) and src(q.func) == callee and q.args and q.args[0] is x:
+                    fine = True
+                break
+            if not fine:
+                ok = False
+                rep.fail('ALG.GEN', relpath, gen.name, src(par.get(n, n))[:100], n.lineno,
+                         'the generator reads its payload outside %s() (`%s`): the character it returns depends on more than the residue the validator '
+                         'computes, so for some payloads it is not the one validate() accepts' % (callee, src(par.get(n, n))[:60]))
+    return ok
+
+
 def need(fn_map, name, relpath):
     if name not in fn_map:
         raise AnalysisError('%s: function %s() vanished' % (relpath, name))
@@ -674,9 +709,27 @@ def luhn(rep, ns):
         raise AnalysisError('%s:%d checksum() is not the reversed even/odd Luhn sum the rule understands' % (relpath, ck.lineno))
     T = validate_wiring(rep, relpath, funcs)
     gen = need(funcs, 'calc_check_digit', relpath)
-    g = match_stmts('V_ck = checksum(E_probe, %s)\nreturn E_pick' % gen.args.args[1].arg, strip_doc(gen.body))
-    if g is None:
-        raise AnalysisError('%s:%d calc_check_digit() is not checksum(<payload + placeholder>, alphabet) followed by a table pick' % (relpath, gen.lineno))
+    if len(gen.args.args) < 2:
+        raise AnalysisError('%s:%d calc_check_digit(number, alphabet) lost its alphabet parameter' % (relpath, gen.lineno))
+    flow_ok = payload_flow(rep, relpath, gen)
+    from ..minieval import run as run_stmts
+
+    def run_gen(alph, s_):
+        """(returned character, [(probe string, alphabet handed to checksum)]) with checksum() standing for the residue s_"""
+        seen = []
+
+        def hook(*a, **k):
+            seen.append((a[0] if a else k.get(num), a[1] if len(a) > 1 else k.get(alpha, dfl)))
+            return s_
+        env = dict(consts)
+        env[gen.args.args[0].arg] = ''
+        env[gen.args.args[1].arg] = alph
+        try:
+            return run_stmts(strip_doc(gen.body), env, {'checksum': hook}), seen
+        except Unsupported as e:
+            raise AnalysisError('%s:%d calc_check_digit() uses a construct the evaluator does not know: %s' % (relpath, gen.lineno, e))
+        except Undecidable:
+            return None, seen
     dfl = defaults(ck).get(alpha)
     import string
     full = string.digits + string.ascii_uppercase + string.ascii_lowercase
@@ -684,14 +737,12 @@ def luhn(rep, ns):
     alphabets.append((6, 'abcdef'))                      # an alphabet that does not start with the character '0'
     alphabets.append((16, 'ABCDEFGHIJKLMNOP'))
     for n, alph in alphabets:
-        # the generator probes with payload + <symbol of value 0>
-        try:
-            probe = ev(g['E_probe'], {gen.args.args[0].arg: '', gen.args.args[1].arg: alph})
-        except Undecidable as e:
-            probe = None
-        rep.check(probe == alph[0], 'ALG.GEN', relpath, 'calc_check_digit', 'placeholder for alphabet %r' % alph, gen.lineno,
-                  'the generator appends %r as placeholder, the symbol of value 0 in this alphabet is %r: the residue it reads is not that of '
-                  'payload + zero, so the generated character is rejected' % (probe, alph[0]), what='alphabet %r: placeholder %r' % (alph, probe))
+        # the generator probes with payload + <symbol of value 0>, in the caller's alphabet
+        _out, seen = run_gen(alph, 0)
+        probe = seen[0][0] if len(seen) == 1 else None
+        rep.check(probe == alph[0] and len(seen) == 1 and seen[0][1] == alph, 'ALG.GEN', relpath, 'calc_check_digit', 'placeholder for alphabet %r' % alph, gen.lineno,
+                  'the generator asks checksum() about %r in the alphabet %r; the validator reads payload + %r (the symbol of value 0) in the alphabet %r: '
+                  'the generated character is rejected' % (probe, seen[0][1] if seen else None, alph[0], alph), what='alphabet %r: placeholder %r' % (alph, probe))
         env = dict(consts)
         env[alpha] = alph
         pre, b = general
@@ -724,10 +775,7 @@ def luhn(rep, ns):
                   what='%s: only the swap of symbols %r is undetected' % (lab, expected[0]))
         # generator: the appended character sits at reversed position 0 (plain)
         for s in range(m):
-            try:
-                ch = ev(g['E_pick'], {gen.args.args[1].arg: alph, g['V_ck'].id: s})
-            except Undecidable as e:
-                ch = None
+            ch, _seen = run_gen(alph, s)
             v = val[ch] if isinstance(ch, str) and len(ch) == 1 and ch in val else None
             others = [w for w in alph if (s + val[w]) % m == T and w != ch]
             rep.check(v is not None and (s + v) % m == T and not others, 'ALG.GEN', relpath, 'calc_check_digit', '%s ck=%d' % (lab, s), gen.lineno,
@@ -780,21 +828,28 @@ def verhoeff(rep):
     rep.check(ident, 'ALG.group', relpath, 'checksum', 'initial state is the identity', ck.lineno, 'state %d is not a two-sided identity' % init)
     rep.check(p0, 'ALG.group', relpath, 'checksum', 'permutation row 0 is the identity', ck.lineno, 'the last digit is permuted: generator lemma does not apply')
     gen = need(funcs, 'calc_check_digit', relpath)
-    g = match_stmts("return str(%s[checksum(str(%s) + K_z)].index(K_t))" % (b['V_mt'].id, gen.args.args[0].arg), strip_doc(gen.body))
-    if g is None:
-        raise AnalysisError('%s:%d calc_check_digit() is not str(table[checksum(number + "0")].index(T))' % (relpath, gen.lineno))
-    z, t = g['K_z'].value, g['K_t'].value
-    rep.check(z == str(init) and t == T, 'ALG.GEN', relpath, 'calc_check_digit', src(gen.body[-1]), gen.lineno,
-              'placeholder %r / searched value %r do not match identity %r / accepted state %r' % (z, t, init, T))
+    payload_flow(rep, relpath, gen)
+    from ..minieval import run as run_stmts
     for q in R:
-        # q = product of the payload part; check digit d must satisfy d * q == T
+        # q = product of the payload part (what checksum(payload + identity digit) returns); the check digit d must satisfy d * q == T
+        seen = []
+
+        def hook(*a, **k):
+            seen.append(a[0] if a else None)
+            return q
+        env = dict(consts)
+        env[gen.args.args[0].arg] = '7'
         try:
-            d = list(mt[q]).index(t)
-        except ValueError:
-            d = None
+            out = run_stmts(strip_doc(gen.body), env, {'checksum': hook})
+        except Unsupported as e:
+            raise AnalysisError('%s:%d calc_check_digit() uses a construct the evaluator does not know: %s' % (relpath, gen.lineno, e))
+        except Undecidable:
+            out = None
+        d = int(out) if isinstance(out, str) and len(out) == 1 and out.isdigit() else None
         sols = [x for x in R if mt[x][q] == T]
-        rep.check(d is not None and sols == [d], 'ALG.GEN', relpath, 'calc_check_digit', 'payload product %d' % q, gen.lineno,
-                  'generated digit %r, digits accepted in front of payload product %d: %r' % (d, q, sols),
+        rep.check(seen == ['7' + str(init)] and d is not None and sols == [d], 'ALG.GEN', relpath, 'calc_check_digit', 'payload product %d' % q, gen.lineno,
+                  'the generator asks checksum() about %r (expected payload + %r) and returns %r for payload product %d; digits accepted in front of '
+                  'that product: %r' % (seen, str(init), out, q, sols),
                   what='payload product %d -> digit %r unique' % (q, d))
 
 
@@ -803,16 +858,20 @@ def damm(rep):
     funcs, consts = load(relpath)
     ck = need(funcs, 'checksum', relpath)
     num, tab = ck.args.args[0].arg, ck.args.args[1].arg
-    pat = ('%s = %s or V_T\n'
-           'V_i = K_init\n'
-           'for V_n in str(%s):\n'
-           '    V_i = %s[V_i][int(V_n)]\n'
-           'return V_i') % (tab, tab, num, tab)
-    b = match_stmts(pat, strip_doc(ck.body))
-    if b is None:
+    # checksum(): `table = table or <default>; i = <init>; for n in str(number): <step>; return i`: the step is evaluated for
+    # every (state, digit) pair, whatever its form (a lookup, a guarded lookup, a helper)
+    from ..minieval import run as run_stmts
+    body = strip_doc(ck.body)
+    b0 = match_stmts('%s = %s or V_T' % (tab, tab), body[:1])
+    loop = body[2] if len(body) == 4 and isinstance(body[2], ast.For) else None
+    ok_shape = b0 is not None and loop is not None and isinstance(body[1], ast.Assign) and len(body[1].targets) == 1 and isinstance(body[1].targets[0], ast.Name) \
+        and isinstance(body[1].value, ast.Constant) and isinstance(loop.target, ast.Name) and src(loop.iter) in ('str(%s)' % num, num) and not loop.orelse \
+        and isinstance(body[3], ast.Return) and src(body[3].value) == body[1].targets[0].id
+    if not ok_shape:
         raise AnalysisError('%s:%d checksum() is not the table fold the rule understands' % (relpath, ck.lineno))
-    t = consts.get(b['V_T'].id)
-    init = b['K_init'].value
+    t = consts.get(b0['V_T'].id)
+    init = body[1].value.value
+    ivar, nvar = body[1].targets[0].id, loop.target.id
     T = validate_wiring(rep, relpath, funcs)
     R = range(10)
     shape = t is not None and len(t) == 10 and all(len(r) == 10 and all(x in R for x in r) for r in t)
@@ -822,7 +881,19 @@ def damm(rep):
     fsm = FSM(R, R)
     for c in R:
         for n in R:
-            fsm.delta[0][(c, n)] = t[c][n]
+            env = dict(consts)
+            env.update({tab: t, ivar: c, nvar: str(n), num: ''})
+            try:
+                run_stmts(loop.body, env, helper_hooks(funcs, consts))
+            except Unsupported as e:
+                raise AnalysisError('%s:%d checksum() step uses a construct the evaluator does not know: %s' % (relpath, ck.lineno, e))
+            except Undecidable as e:
+                rep.fail('ALG.step-total', relpath, 'checksum', 'state %d digit %d' % (c, n), loop.lineno, 'the step is not defined: %s' % e)
+                return
+            if env[ivar] not in R:
+                rep.fail('ALG.step-total', relpath, 'checksum', 'state %d digit %d' % (c, n), loop.lineno, 'the step leaves the states 0..9: %r' % (env[ivar],))
+                return
+            fsm.delta[0][(c, n)] = env[ivar]
     und = fsm_checks(rep, relpath, fsm, 'damm', True)
     rep.check(not und, 'ALG.TRANS', relpath, 'checksum', 'damm table', ck.lineno,
               'adjacent transposition undetected: state %d digits %d,%d' % tuple((und or [(0, 0, 0, 0)])[0][1:]), what='damm: 10 x 90 swaps detected')
@@ -879,13 +950,54 @@ def check(tier):
     return rep.finish()
 
 
+def per_character(rep):
+    """ALG.per-character: checksum() consumes the number character by character.  `int(number)` on the whole argument reads it
+    as one integer: leading zeros vanish and every Unicode decimal digit counts as its ASCII value, so strings that differ in those
+    positions share a checksum (substitutions of or into a leading zero go undetected).  -> files where the rule fails."""
+    bad = set()
+    for relpath in ('stdnum/iso7064/mod_11_2.py', 'stdnum/iso7064/mod_37_2.py', 'stdnum/iso7064/mod_11_10.py', 'stdnum/iso7064/mod_37_36.py',
+                    'stdnum/iso7064/mod_97_10.py', 'stdnum/luhn.py', 'stdnum/verhoeff.py', 'stdnum/damm.py'):
+        funcs, _consts = load(relpath)
+        ck = need(funcs, 'checksum', relpath)
+        p = ck.args.args[0].arg
+        hits = [n for n in ast.walk(ck) if isinstance(n, ast.Call) and src(n.func) == 'int' and len(n.args) == 1
+                and src(n.args[0]) in (p, 'str(%s)' % p)]
+        if relpath.endswith('mod_97_10.py'):
+            # modulo 97 the value of an ASCII digit string is its integer value: a fast path is the same function when its guard admits
+            # ASCII digits only (util.isdigits, isascii() and isdigit(), a [0-9] pattern)
+            def guarded(n):
+                for i in ast.walk(ck):
+                    if isinstance(i, ast.If) and any(x is n for st in i.body for x in ast.walk(st)):
+                        t = src(i.test)
+                        if 'isdigits(' in t or 'isascii()' in t or '[0-9]' in t:
+                            return True
+                return False
+            hits = [n for n in hits if not guarded(n)]
+        for n in hits:
+            bad.add(relpath)
+            rep.fail('ALG.per-character', relpath, 'checksum', src(n), n.lineno,
+                     'checksum() reads the whole number as one integer (%s): leading zeros and the difference between look-alike decimal digits are lost '
+                     'before the check characters are computed, so e.g. a leading 0 can be replaced or dropped without the checksum changing' % src(n))
+        if not hits:
+            rep.ok('ALG.per-character', '%s checksum' % relpath, 'no int() of the whole argument')
+    return bad
+
+
 def analyse(rep, tier):
     luhn_ns = list(range(2, 41, 2)) if tier == 'thorough' else [2, 10, 16, 36, 40]
-    iso_fold(rep, 'stdnum/iso7064/mod_11_2.py', ['0123456789X'], want_trans=True, label='11-2')
-    iso_fold(rep, 'stdnum/iso7064/mod_37_2.py', [None, '0123456789X'], want_trans=True, label='37-2')
-    iso_fold(rep, 'stdnum/iso7064/mod_11_10.py', ['0123456789'], want_trans=False, label='11-10')
-    iso_fold(rep, 'stdnum/iso7064/mod_37_36.py', [None, '0123456789'], want_trans=False, label='37-36')
-    mod_97_10(rep)
-    luhn(rep, luhn_ns)
-    verhoeff(rep)
-    damm(rep)
+    skip = per_character(rep)
+    jobs = [('stdnum/iso7064/mod_11_2.py', lambda: iso_fold(rep, 'stdnum/iso7064/mod_11_2.py', ['0123456789X'], want_trans=True, label='11-2')),
+            ('stdnum/iso7064/mod_37_2.py', lambda: iso_fold(rep, 'stdnum/iso7064/mod_37_2.py', [None, '0123456789X'], want_trans=True, label='37-2')),
+            ('stdnum/iso7064/mod_11_10.py', lambda: iso_fold(rep, 'stdnum/iso7064/mod_11_10.py', ['0123456789'], want_trans=False, label='11-10')),
+            ('stdnum/iso7064/mod_37_36.py', lambda: iso_fold(rep, 'stdnum/iso7064/mod_37_36.py', [None, '0123456789'], want_trans=False, label='37-36')),
+            ('stdnum/iso7064/mod_97_10.py', lambda: mod_97_10(rep)),
+            ('stdnum/luhn.py', lambda: luhn(rep, luhn_ns)),
+            ('stdnum/verhoeff.py', lambda: verhoeff(rep)),
+            ('stdnum/damm.py', lambda: damm(rep))]
+    for relpath, job in jobs:
+        try:
+            job()
+        except AnalysisError:
+            # a module already reported by ALG.per-character has a verdict; its rewritten fold need not be one the other rules read
+            if relpath not in skip:
+                raise
